@@ -188,4 +188,55 @@ theorem pinned_compExch_keeps_preselection :
     ((e4Next (compExchCall [0, 0] 500 (e4State none (some e4Silver) { draws := [999, 0, 0] })).2).atoms.rows.map
         (·.aux)) = [[29], [29], [29], [29]] := by decide
 
+/-! ### a pre-selected deletion target must be eligible like a drawn one -/
+
+/-- **deletion_target_eligible**: whatever way the deletion target was chosen (drawn, or pre-selected by the user through
+    `to_delete_label`), the atoms `attempt_deletion` hands over are those of ONE ELIGIBLE label (non-negative and present) —
+    or none at all, which makes the move fail -/
+theorem deletion_target_eligible (r : Nat) (s : State) :
+    (attemptDeletion r s).1 = [] ∨
+      ∃ l ∈ uniqueLabels (s.obj r).labels, (attemptDeletion r s).1 = whereEq (s.obj r).labels l := by
+  rw [attemptDeletion_eq]
+  cases htd : (s.obj r).toDelete with
+  | some l =>
+    simp only []
+    by_cases hc : (uniqueLabels (s.obj r).labels).contains l = true
+    · simp only [hc, if_true]
+      exact Or.inr ⟨l, by simpa using hc, rfl⟩
+    · simp only [hc, Bool.false_eq_true, if_false]
+      exact Or.inl (by first | rfl | trivial)
+  | none =>
+    simp only []
+    by_cases hu : (uniqueLabels (s.obj r).labels).isEmpty = true
+    · simp only [hu, if_true]; exact Or.inl (by first | rfl | trivial)
+    · simp only [hu, Bool.false_eq_true, if_false]
+      have hne : uniqueLabels (s.obj r).labels ≠ [] := by intro h; rw [h] at hu; simp at hu
+      exact Or.inr ⟨_, choice_mem _ 0 s.inp hne, rfl⟩
+
+/-- **deletion_never_touches_negative**: an atom with a negative (do-not-touch) label is never among the atoms a deletion
+    removes, pre-selected target or not -/
+theorem deletion_never_touches_negative (r : Nat) (s : State) (i : Nat) (x : Int)
+    (hx : (s.obj r).labels[i]? = some x) (hneg : x < 0) : i ∉ (attemptDeletion r s).1 := by
+  rcases deletion_target_eligible r s with h | ⟨l, hl, h⟩
+  · rw [h]; simp
+  · rw [h]
+    intro hi
+    have := (whereEq_mem _ _ _).1 hi
+    rw [hx] at this
+    have hl0 := ((uniqueLabels_mem _ _).1 hl).2
+    cases this; omega
+
+/-- the code before the repair used a pre-selected label unchecked: `to_delete_label = -1` removed every atom labelled −1
+    (three substrate atoms as "one particle") -/
+def attemptDeletionPinned (r : Nat) (s : State) : List Nat × State :=
+  match (s.obj r).toDelete with
+  | some l => (whereEq (s.obj r).labels l, s)
+  | none => attemptDeletion r s
+
+theorem pinned_preselected_negative_deleted :
+    let s : State := { atoms := { rows := [⟨(0,0,0), (0,0,0), [29]⟩, ⟨(1,0,0), (0,0,0), [29]⟩, ⟨(2,0,0), (0,0,0), [47]⟩],
+                                  cell := (9,9,9), fixed := none },
+                       heap := [{ kind := .exch, labels := [-1, -1, 0], toDelete := some (-1) }], ctx := {}, inp := {} }
+    (attemptDeletionPinned 0 s).1 = [0, 1] ∧ (attemptDeletion 0 s).1 = [] := by decide
+
 end MM
